@@ -22,7 +22,9 @@ TRUSTED = [
     "of ints and strings, sleep; names first assigned at top level or (tr2) one block below it; helper functions, lists, floats, / ** << >> and `continue` are "
     "outside the theorem and exercised only by the end-to-end oracle",
     "text (W13): string literals of printable ASCII, string-typed names (declaration, assignment, tuple assignment, promotion), conditional expressions over "
-    "strings, str(e) of int-/string-typed e (emitted String(e)), + on two strings (literal left operand emitted as String(\"...\"); s += e), serial lines compared as TEXT (the model prints an int with Lean's `toString`, the mock core with std::to_string, CPython with str); the model's "
+    "strings, str(e) of int-/string-typed e (emitted String(e)), + on two strings (literal left operand emitted as String(\"...\"); s += e), f-strings (the generator prints f\"..\" and sends the model the left fold "
+    "of + over the parts that `_to_c_expr` emits for a JoinedStr — a formatted value is String(e), a plain f-string a literal; T ties that reading to the emitted text, "
+    "S_py to CPython's formatting), serial lines compared as TEXT (the model prints an int with Lean's `toString`, the mock core with std::to_string, CPython with str); the model's "
     "`String` is a list of characters with `+` = append (tied to the mock core's String by S_c); strings in conditions / counts / arithmetic / comparisons are "
     "outside `InF`; a bool reaching `mon.write` is a `typeError` of the model's Python side (K01f), so no theorem speaks about such a run",
     "`//` and `%`: the theorem is about the STRICT reading of the C semantics, which stops with `signedDiv` at a `/` or `%` with a negative dividend or divisor "
@@ -281,6 +283,7 @@ def run(ctx: Ctx) -> int:
             ctx.count("programs-using:strings")
             ctx.count("string-literals", sx.count("(s x"))
             ctx.count("str()-calls", sx.count("(str "))
+            ctx.count("f-strings", src.count('f"'))
             ctx.count("string-concatenations-with-literal-left", sx.count("(bin add (s x"))
         replay = {"script": src, "passes": n}
         # ---- T
@@ -391,7 +394,7 @@ def run(ctx: Ctx) -> int:
                        "names all first assigned at top level; expressions over + - * & | ^ // % abs min max, divisors mostly positive; tuple assignments (swaps, rotations, "
                        "Fibonacci-style updates, mixed int/bool targets) in prologue, nested blocks and main loop, plus pinned counter-threading programs); W13: a post-pass with its own PRNG "
                        "declares string names s, t (u in a promoted branch) and adds serial writes / assignments / swaps of string literals (printable ASCII incl. quote, backslash, braces), names and "
-                       "conditional expressions, str(<int expression, also over the loop variable in scope>), str(<string>), concatenations (never two `const char*` operands) and `s += e` to every block; N in {0,1,3} passes; "
+                       "conditional expressions, str(<int expression, also over the loop variable in scope>), str(<string>), concatenations (never two `const char*` operands), f-strings (literal text and int-/string-typed formatted values) and `s += e` to every block; N in {0,1,3} passes; "
                        "each program goes through T, S_py, S_c (strict and raw reading) and E; plus fixed scripts for "
                        "break-in-main-loop, swaps/tuples, helpers, lists, f-strings (E only) and one-construct-outside scripts; non-trivial = has control flow")
     return ctx.finish(TRUSTED, search=None)
